@@ -311,7 +311,11 @@ class SessionSem(Semantics):
             env['K'] = 'ToBeRenamed'
         elif var == 'NewlyGenerated':
             if old_k != 'NewlyGenerated':
-                self.unknown.append('NewlyGenerated assigned over %s at %s' % (old_k, loc))
+                # the id(s) the store and the client know this session by are forgotten: whatever is stored under them can no longer be
+                # deleted, renamed or answered with a removal cookie
+                if env['rc'] in ('Y', '?') or env['ro'] in ('Y', '?'):
+                    env['orphan'] = 'the session forgets the id it is known by (%s -> NewlyGenerated at %s) while a record may exist under it' % (old_k, loc)
+                env['rc'], env['ro'] = 'N', 'N'
             elif env['rc'] == 'Y':
                 env['orphan'] = 'record under the previous id forgotten by cycle_id at %s' % loc
                 env['rc'] = 'N'
